@@ -9,7 +9,8 @@
 (* Lang.Eval and printed as one REPLAY line (program + inputs + expected   *)
 (* outputs), which the harness replays on the real back ends.              *)
 (*                                                                         *)
-(* Types: "N" number, "P" pair of numbers, "F" closure number -> number.   *)
+(* Types: "N" number, "P" pair of numbers, "F" closure number -> number,   *)
+(* "R" record {p, q} of numbers, "A" array of three numbers.               *)
 (* Clean-fragment switches (DESIGN.md §5) are constants; with a switch off *)
 (* the generator does not produce the feature at all.                      *)
 (***************************************************************************)
@@ -21,6 +22,9 @@ CONSTANTS
                    \* "clo": the body follows `let v = 1  let bump = |y| { v = v + y  v }` in dsp: a local that an
                    \* open closure reads and assigns, read and assigned by the body as well (left-to-right evaluation
                    \* of operands and arguments around calls that assign)
+                   \* "hof": the body follows `let k = x + 1  let inner = |y| y * 10 + k` in dsp(x): a captured variable
+                   \* and a capturing closure that the body hands to named functions and wraps in further closures;
+                   \* "dsp2": the body is dsp's and is a pair (two output channels)
   UseInput,        \* dsp has one input channel bound to x
   Lits,            \* literal values
   Ops,             \* binary operators
@@ -53,7 +57,16 @@ Prelude == [
   apply   |-> [ps |-> <<"g", "x">>, self |-> FALSE, b |-> App(Var("g"), <<Var("x")>>)],
   mk      |-> [ps |-> <<"k">>,   self |-> FALSE, b |-> Lam(<<"y">>, Bin("+", Var("y"), Var("k")))],
   swap    |-> [ps |-> <<"p">>,   self |-> FALSE,
-               b |-> LetT(<<"a", "b">>, Var("p"), Tup(<<Var("b"), Var("a")>>))]
+               b |-> LetT(<<"a", "b">>, Var("p"), Tup(<<Var("b"), Var("a")>>))],
+  \* records: a parameter of record type (annotated), a record result whose fields are written in
+  \* non-alphabetical order; a recursive function (its recursion is bounded for every argument)
+  pick    |-> [ps |-> <<"r">>,   self |-> FALSE, pty |-> <<"{p:float, q:float}">>,
+               b |-> Bin("+", Bin("*", Fld(Var("r"), "q"), Lit(10)), Fld(Var("r"), "p"))],
+  mkr     |-> [ps |-> <<"x">>,   self |-> FALSE,
+               b |-> RecE(<<[n |-> "q", a |-> Var("x")], [n |-> "p", a |-> Bin("+", Var("x"), Lit(1))]>>)],
+  sumto   |-> [ps |-> <<"n">>,   self |-> FALSE,
+               b |-> If(Bin("&&", Bin(">", Var("n"), Lit(0)), Bin("<", Var("n"), Lit(5))),
+                        Bin("+", Var("n"), Call("sumto", <<Bin("-", Var("n"), Lit(1))>>)), Lit(0))]
 ]
 Sig == [
   counter |-> [args |-> <<"N">>, ret |-> "N", st |-> TRUE],
@@ -65,7 +78,10 @@ Sig == [
   dbl     |-> [args |-> <<"N">>, ret |-> "N", st |-> FALSE],
   apply   |-> [args |-> <<"F", "N">>, ret |-> "N", st |-> FALSE],
   mk      |-> [args |-> <<"N">>, ret |-> "F", st |-> FALSE],
-  swap    |-> [args |-> <<"P">>, ret |-> "P", st |-> FALSE]
+  swap    |-> [args |-> <<"P">>, ret |-> "P", st |-> FALSE],
+  pick    |-> [args |-> <<"R">>, ret |-> "N", st |-> FALSE],
+  mkr     |-> [args |-> <<"N">>, ret |-> "R", st |-> FALSE],
+  sumto   |-> [args |-> <<"N">>, ret |-> "N", st |-> FALSE]
 ]
 
 ---------------------------------------------------------------------------
@@ -74,8 +90,8 @@ vars == <<toks, pend, nv>>
 
 (* a slot: type, variables in scope per type, assignable variables, whether *)
 (* `self` may be used (and its type), whether stateful constructs may occur *)
-Slot(ty, n, p, f, asg, slf, st) ==
-  [ty |-> ty, n |-> n, p |-> p, f |-> f, asg |-> asg, slf |-> slf, st |-> st]
+Slot(ty, n, p, f, asg, slf, st) ==     \* r, a: record / array variables in scope
+  [ty |-> ty, n |-> n, p |-> p, f |-> f, asg |-> asg, slf |-> slf, st |-> st, r |-> {}, a |-> {}]
 With(s, ty) == [s EXCEPT !.ty = ty]
 
 GlobalNames == IF GlobalSet = "stateful" THEN {"g1"} ELSE {}
@@ -85,6 +101,8 @@ Globals == IF GlobalSet = "stateful"
 
 RootSlot ==
   IF Template = "clo" THEN Slot("N", {"v"}, {}, {"bump"}, {"v"}, "none", TRUE) ELSE
+  IF Template = "hof" THEN Slot("N", {"k"}, {}, {"inner"}, {}, "none", TRUE) ELSE
+  IF Template = "dsp2" THEN Slot("P", (IF UseInput THEN {"x"} ELSE {}), {}, {}, {}, "none", TRUE) ELSE
   IF Template = "dsp"
   THEN Slot("N", (IF UseInput THEN {"x"} ELSE {}) \cup GlobalNames, {}, {}, {}, "none", TRUE)
   ELSE Slot("N", {"x"} \cup GlobalNames, {}, {}, {}, "N", TRUE)
@@ -94,6 +112,8 @@ Init == toks = <<>> /\ pend = <<RootSlot>> /\ nv = 0
 MinSize(s) == CASE s.ty = "N" -> 1
                 [] s.ty = "P" -> IF s.p # {} THEN 1 ELSE 3
                 [] s.ty = "F" -> IF s.f # {} \/ "fnref" \in Prods THEN 1 ELSE 2
+                [] s.ty = "R" -> IF s.r # {} THEN 1 ELSE 2
+                [] s.ty = "A" -> IF s.a # {} THEN 1 ELSE 4
 RECURSIVE SumMin(_)
 SumMin(ps) == IF ps = <<>> THEN 0 ELSE MinSize(Head(ps)) + SumMin(Tail(ps))
 
@@ -139,6 +159,32 @@ FillN(s) ==
   \/ Has("lett") /\ Put([k |-> "lett", xs |-> <<Fresh(1), Fresh(2)>>],
                         <<With(s, "P"), [s EXCEPT !.n = @ \cup {Fresh(1), Fresh(2)}]>>, 2)
   \/ Has("asg") /\ \E x \in s.asg : Put([k |-> "asg", x |-> x], <<s, s>>, 0)
+  \* records, arrays, numeric match
+  \/ Has("fld") /\ \E fn \in {"p", "q"} : Put([k |-> "fld", n |-> fn], <<With(s, "R")>>, 0)
+  \/ Has("letr") /\ Put([k |-> "let", x |-> Fresh(1)],
+                        <<With(s, "R"), [s EXCEPT !.r = @ \cup {Fresh(1)}]>>, 1)
+  \/ Has("asgf") /\ \E x \in s.r : \E fn \in {"p", "q"} : Put([k |-> "asgf", x |-> x, n |-> fn], <<s, s>>, 0)
+  \/ Has("idx") /\ \E i \in {0, 2} : Put([k |-> "idx", i |-> i], <<With(s, "A")>>, 0)
+  \/ Has("idxv") /\ Put([k |-> "idxv"], <<With(s, "A"), s>>, 0)
+  \/ Has("len") /\ Put([k |-> "len"], <<With(s, "A")>>, 0)
+  \/ Has("leta") /\ Put([k |-> "let", x |-> Fresh(1)],
+                        <<With(s, "A"), [s EXCEPT !.a = @ \cup {Fresh(1)}]>>, 1)
+  \/ Has("match") /\ Put([k |-> "match", keys |-> <<0, 2>>], <<s, Arm(s), Arm(s), Arm(s)>>, 0)
+
+FillR(s) ==
+  \/ Has("rec") /\ Put([k |-> "rec", fs |-> <<"q", "p">>], <<With(s, "N"), With(s, "N")>>, 0)
+  \/ \E x \in s.r : Put([k |-> "var", x |-> x], <<>>, 0)
+  \/ Has("recupd") /\ \E x \in s.r : \E fn \in {"p", "q"} :
+        Put([k |-> "recupd", x |-> x, n |-> fn], <<With(s, "N")>>, 0)
+  \/ Has("recupd2") /\ \E x \in s.r : Put([k |-> "recupd2", x |-> x], <<With(s, "N"), With(s, "N")>>, 0)
+  \/ \E f \in Helpers : /\ Sig[f].ret = "R" /\ (Sig[f].st => s.st)
+                        /\ Put([k |-> "call", f |-> f],
+                               [i \in 1..Len(Sig[f].args) |-> With(s, Sig[f].args[i])], 0)
+  \/ Has("ifr") /\ Put([k |-> "if"], <<With(s, "N"), Arm(s), Arm(s)>>, 0)
+
+FillA(s) ==
+  \/ Has("arr") /\ Put([k |-> "arr"], <<With(s, "N"), With(s, "N"), With(s, "N")>>, 0)
+  \/ \E x \in s.a : Put([k |-> "var", x |-> x], <<>>, 0)
 
 FillP(s) ==
   \/ Has("tup") /\ Put([k |-> "tup"], <<With(s, "N"), With(s, "N")>>, 0)
@@ -150,7 +196,7 @@ FillP(s) ==
   \/ Has("ifp") /\ Put([k |-> "if"], <<With(s, "N"), Arm(s), Arm(s)>>, 0)
 
 LamBody(s, x) ==
-  LET b == [s EXCEPT !.ty = "N", !.n = @ \cup {x}, !.slf = "none"]
+  LET b == [s EXCEPT !.ty = "N", !.n = @ \cup {x}, !.slf = "none", !.r = {}, !.a = {}]
   IN IF AllowStatefulInLambda THEN b ELSE NoSt(b)
 
 FillF(s) ==
@@ -166,6 +212,8 @@ Fill == /\ pend # <<>>
              CASE s.ty = "N" -> FillN(s)
                [] s.ty = "P" -> FillP(s)
                [] s.ty = "F" -> FillF(s)
+               [] s.ty = "R" -> FillR(s)
+               [] s.ty = "A" -> FillA(s)
 
 Next == Fill
 Spec == Init /\ [][Next]_vars
@@ -173,9 +221,10 @@ Spec == Init /\ [][Next]_vars
 ---------------------------------------------------------------------------
 (* prefix tokens -> AST *)
 Arity(t) == CASE t.k \in {"lit", "var", "now", "self"} -> 0
-              [] t.k \in {"neg", "mem", "delay", "proj", "lam"} -> 1
-              [] t.k \in {"bin", "let", "lett", "asg", "tup", "app"} -> 2
-              [] t.k = "if" -> 3
+              [] t.k \in {"neg", "mem", "delay", "proj", "lam", "fld", "idx", "len", "recupd"} -> 1
+              [] t.k \in {"bin", "let", "lett", "asg", "tup", "app", "rec", "recupd2", "asgf", "idxv"} -> 2
+              [] t.k \in {"if", "arr"} -> 3
+              [] t.k = "match" -> 4
               [] t.k = "call" -> Len(Sig[t.f].args)
 
 SelfZero == IF Template = "f" THEN 0 ELSE 0
@@ -207,6 +256,16 @@ ParseAt(ts, i) ==
              [] t.k = "app"  -> App(c[1], <<c[2]>>)
              [] t.k = "if"   -> If(c[1], c[2], c[3])
              [] t.k = "call" -> Call(t.f, c)
+             [] t.k = "rec"  -> RecE([j \in 1..2 |-> [n |-> t.fs[j], a |-> c[j]]])
+             [] t.k = "fld"  -> Fld(c[1], t.n)
+             [] t.k = "recupd" -> RecUpd(Var(t.x), <<[n |-> t.n, a |-> c[1]]>>)
+             [] t.k = "recupd2" -> RecUpd(Var(t.x), <<[n |-> "q", a |-> c[1]], [n |-> "p", a |-> c[2]]>>)
+             [] t.k = "asgf" -> AsgF(t.x, t.n, c[1], c[2])
+             [] t.k = "arr"  -> ArrE(c)
+             [] t.k = "idx"  -> Idx(c[1], Lit(t.i))
+             [] t.k = "idxv" -> Idx(c[1], Bin("%", c[2], Lit(3)))
+             [] t.k = "len"  -> LenE(c[1])
+             [] t.k = "match" -> MatchE(c[1], t.keys, <<c[2], c[3]>>, c[4])
   IN [e |-> e, i |-> r.i]
 
 Body == ParseAt(toks, 1).e
@@ -225,23 +284,31 @@ Prog ==
              THEN [dsp |-> [ps |-> <<>>, self |-> FALSE,
                             b |-> Let("v", Lit(1),
                                       Let("bump", Lam(<<"y">>, Asg("v", Bin("+", Var("v"), Var("y")), Var("v"))), Body))]]
-             ELSE IF Template = "dsp"
+             ELSE IF Template = "hof"
+             \* a captured variable and a capturing closure: the body may hand `inner` to helper functions,
+             \* wrap it in further closures and read k after such calls
+             THEN [dsp |-> [ps |-> <<"x">>, self |-> FALSE,
+                            b |-> Let("k", Bin("+", Var("x"), Lit(1)),
+                                      Let("inner", Lam(<<"y">>, Bin("+", Bin("*", Var("y"), Lit(10)), Var("k"))), Body))]]
+             ELSE IF Template \in {"dsp", "dsp2"}
              THEN [dsp |-> [ps |-> IF UseInput THEN <<"x">> ELSE <<>>, self |-> FALSE, b |-> Body]]
              ELSE [f |-> [ps |-> <<"x">>, self |-> UsesSelf(toks), b |-> Body],
                    dsp |-> [ps |-> IF UseInput THEN <<"x">> ELSE <<>>, self |-> FALSE,
                             b |-> Bin("+", Call("f", <<IF UseInput THEN Var("x") ELSE Lit(1)>>),
                                            Bin("*", Call("f", <<NowE>>), Lit(100)))]]
-  IN [nout |-> 1, globals |-> Globals,
+  IN [nout |-> IF Template = "dsp2" THEN 2 ELSE 1, globals |-> Globals,
       fns |-> [f \in (DOMAIN hs) \cup (DOMAIN gen) |-> IF f \in DOMAIN gen THEN gen[f] ELSE hs[f]]]
 
 (* two input streams when dsp has an input *)
-Inputs == IF UseInput THEN {[i \in 1..NSamples |-> (i * 3) % 5], [i \in 1..NSamples |-> 2 - i]}
+Inputs == IF Template = "hof" THEN {[i \in 1..NSamples |-> (i * 3) % 5]} ELSE
+          IF UseInput THEN {[i \in 1..NSamples |-> (i * 3) % 5], [i \in 1..NSamples |-> 2 - i]}
           ELSE {[i \in 1..NSamples |-> 0]}
 
 RECURSIVE TailProj(_)
-TailProj(e) == CASE e.k = "proj" -> TRUE
-                 [] e.k \in {"let", "lett", "asg"} -> TailProj(e.b)
+TailProj(e) == CASE e.k \in {"proj", "fld"} -> TRUE
+                 [] e.k \in {"let", "lett", "asg", "asgf"} -> TailProj(e.b)
                  [] e.k = "if" -> TailProj(e.t) \/ TailProj(e.e)
+                 [] e.k = "match" -> TailProj(e.d) \/ \E i \in 1..Len(e.arms) : TailProj(e.arms[i])
                  [] OTHER -> FALSE
 
 Excluded == ~AllowProjAsFeedResult /\ TailProj(Body)
